@@ -13,6 +13,14 @@ mod index;
 pub mod reader;
 pub mod types;
 
+#[cfg(rbp_verif)]
+pub(crate) mod verif_access {
+    pub(crate) use super::blkfile::verif_parse_blk_index as parse_blk_index;
+    pub(crate) use super::index::{
+        verif_decode_record as decode_record, verif_read_varint as read_varint,
+    };
+}
+
 /// Small struct to hold statistics together
 struct WorkerStats {
     pub started_at: Instant,
